@@ -17,6 +17,7 @@
       10 cond∞(H(λ))               11 cond∞(H(λT))
       12 dphi relative error dense  13 sparse          14 forward error of dxL_d
       15 T≠L flag when λT = λ bitwise                  16 exact dphi          17 zero-step flag violation
+      18 cond∞(D⁻¹H(λ)D⁻¹)
 -/
 import SmoothModel
 import SmoothModel.Optim
@@ -182,6 +183,8 @@ def colnormErr (c : TrCtx) (cn : Array Rat) : Float :=
 
 structure ExactSol where
   cond : Float
+  /-- cond∞ of the diagonally scaled matrix `D⁻¹ H D⁻¹ = D⁻¹JᵀJD⁻¹ + λI` (governs the accuracy of `D dx` and `dphi`) -/
+  condS : Float
   x : Array Int        -- BigFix
   dphi : Float
   ok : Bool
@@ -191,11 +194,17 @@ def exactSol (c : TrCtx) (lam : Rat) : ExactSol :=
   let n := c.n
   let A : Array (Array Int) := Array.ofFn (n := n) (fun i => Array.ofFn (n := n) (fun j => BigFix.ofRat (c.H lam i.val j.val)))
   match bfInverse n A with
-  | none => ⟨1e300, #[], 0.0, false⟩
+  | none => ⟨1e300, 1e300, #[], 0.0, false⟩
   | some Hi =>
     let hn := ratToFloat (rowSumNorm n (c.H lam))
     let hin : Int := (List.range n).foldl (fun s i =>
       let rs : Int := (List.range n).foldl (fun t j => t + ((Hi[i]!)[j]!).natAbs) 0
+      if s < rs then rs else s) 0
+    let hsn := ratToFloat (rowSumNorm n (fun i j => c.H lam i j / (c.d[i]! * c.d[j]!)))
+    let dBf : Array Int := c.d.map BigFix.ofRat
+    let hsin : Int := (List.range n).foldl (fun s i =>
+      let rs : Int := (List.range n).foldl (fun t j =>
+        t + (BigFix.mul (BigFix.mul dBf[i]! ((Hi[i]!)[j]!)) dBf[j]!).natAbs) 0
       if s < rs then rs else s) 0
     let b : Array Int := c.Jtr.map (fun v => BigFix.ofRat (-v))
     let x : Array Int := Array.ofFn (n := n) (fun i =>
@@ -218,7 +227,7 @@ def exactSol (c : TrCtx) (lam : Rat) : ExactSol :=
         let scale : Rat := if e ≥ 0 then (2 : Rat) ^ e.toNat else 1 / (2 : Rat) ^ (-e).toNat
         let root := Float.sqrt (ratToFloat (sf / (scale * scale)))   -- in [~0.5, ~4)
         Float.neg (ratToFloat (qf / scale) / root)
-    ⟨hn * bf2f hin, x, dphi, true⟩
+    ⟨hn * bf2f hin, hsn * bf2f hsin, x, dphi, true⟩
 
 def relErrF (a ref : Float) : Float :=
   if ref == 0.0 then a.abs else ((a - ref) / ref).abs
@@ -251,7 +260,7 @@ def optTrAudit (args : Array String) : Except String (Array Float) := do
   let cns := q.extract (o + 5 * n + 4) (o + 6 * n + 4)
   let cnr := q.extract (o + 6 * n + 4) (o + 7 * n + 4)
   if !finite then
-    return #[1.0] ++ Array.replicate 17 0.0
+    return #[1.0] ++ Array.replicate 18 0.0
   let c := mkCtx m n J d r
   let lamT := ratOfBits64 lamTdBits
   let e1 := backwardErr c lam dxLd
@@ -280,7 +289,7 @@ def optTrAudit (args : Array String) : Except String (Array Float) := do
   let gradZero := c.Jtr.all (· == 0)
   let e17 : Float :=
     if gradZero && !(dxLd.all (· == 0) && dxLs.all (· == 0) && dxTd.all (· == 0) && dxTs.all (· == 0)) then 1.0 else 0.0
-  return #[0.0, e1, e2, e3, e4, e5, e6, e7, e8, e9, exL.cond, exT.cond, e12, e13, e14, e15, exL.dphi, e17]
+  return #[0.0, e1, e2, e3, e4, e5, e6, e7, e8, e9, exL.cond, exT.cond, e12, e13, e14, e15, exL.dphi, e17, exL.condS]
 
 -- ------------------------------------------------------------------------------------ dispatch
 def fwords (r : Except String (Array Float)) : String :=
